@@ -22,6 +22,8 @@
 (*   <<"retnull">>        return null (a guard rejects; an action yields   *)
 (*                        empty bindings)                                  *)
 (*   <<"throw">>          fail by throwing                                 *)
+(*   <<"throwobj">>       fail by throwing a value whose own rendering as  *)
+(*                        text throws                                      *)
 (*   <<"loop">>           never terminate (fails by timeout)               *)
 (*   <<"retscalar">>      return something that is not bindings (fails)    *)
 (*   <<"emitbad">>        emit a value that cannot be serialised (fails)   *)
@@ -58,6 +60,7 @@ RunOps(ops, bs, em) ==
       [] o[1] = "retscalar" -> [oc |-> "fail", cls |-> "badreturn", bs |-> bs, em |-> <<>>, pem |-> em]
       [] o[1] = "emitbad"   -> [oc |-> "fail", cls |-> "thrown", bs |-> bs, em |-> <<>>, pem |-> em]
       [] o[1] = "retgetter" -> [oc |-> "fail", cls |-> "thrown", bs |-> bs, em |-> <<>>, pem |-> em]
+      [] o[1] = "throwobj"  -> [oc |-> "fail", cls |-> "thrown", bs |-> bs, em |-> <<>>, pem |-> em]
       [] o[1] = "retcyclic" -> [oc |-> "fail", cls |-> "badreturn", bs |-> bs, em |-> <<>>, pem |-> em]
 
 Run(ops, bs) == RunOps(ops, bs, <<>>)
